@@ -76,8 +76,12 @@ struct ConcRun {
         R.jv_wk_keygen(view, wkey, wparams, wmsk, &al, jv_rand_cb);
         wct = sh.take(R.sz(JV_SZ_WK_CT)); R.jv_wk_encrypt(view, wct, gt, wparams, &al, jv_rand_cb);
         wsig = sh.take(R.sz(JV_SZ_WK_SIG)); uint8_t m[32] = {7}; R.jv_wk_sign(view, wsig, wparams, wkey, &al, m, jv_rand_cb);
+        // (the arena is not sealed yet: serialising an object is a read of it and of what it points at - compare the whole arena around these calls)
+        std::vector<uint8_t> arena_before(sh.base, sh.base + sh.used);
         { size_t n = R.jv_wk_get_marshalled_length(view, JV_OK_WK_SK, wkey, 0); key_bytes.resize(n); R.jv_wk_marshal(view, JV_OK_WK_SK, key_bytes.data(), wkey, 0); n = R.jv_wk_get_marshalled_length(view, JV_OK_WK_CT, wct, 1); ct_bytes.resize(n); R.jv_wk_marshal(view, JV_OK_WK_CT, ct_bytes.data(), wct, 1); n = R.jv_wk_get_marshalled_length(view, JV_OK_WK_SIG, wsig, 0); sig_bytes.resize(n); R.jv_wk_marshal(view, JV_OK_WK_SIG, sig_bytes.data(), wsig, 0); }
         size_t pl = R.jv_wk_get_marshalled_length(view, JV_OK_WK_PARAMS, wparams, 1); params_bytes.resize(pl); R.jv_wk_marshal(view, JV_OK_WK_PARAMS, params_bytes.data(), wparams, 1);
+        { std::vector<uint8_t> pu(R.jv_wk_get_marshalled_length(view, JV_OK_WK_PARAMS, wparams, 0)); R.jv_wk_marshal(view, JV_OK_WK_PARAMS, pu.data(), wparams, 0); }
+        for (size_t i = 0; i < arena_before.size(); i++) if (sh.base[i] != arena_before[i]) env.fail("C20", "const-input-written", strf("marshalling the freshly set-up parameters / key / ciphertext / signature changed byte %zu of the objects being serialised (or of the arrays they point at)", i));
         lqparams = sh.take(R.sz(JV_SZ_LQ_PARAMS)); lqmsk = sh.take(R.sz(JV_SZ_LQ_MSK)); R.jv_lq_setup(view, lqparams, lqmsk, jv_rand_cb);
         lqid = sh.take(R.sz(JV_SZ_LQ_ID)); uint8_t hs[48]; st.rng.fill(hs, 48); R.jv_lq_compute_id_from_hash(view, lqid, hs);
         lqsk = sh.take(R.sz(JV_SZ_LQ_SK)); R.jv_lq_keygen(view, lqsk, lqmsk, lqid);
@@ -122,7 +126,7 @@ struct ConcRun {
             gt1.alloc(576, fill); g1.alloc(144, fill); g2.alloc(288, fill); g1a.alloc(R.sz(JV_SZ_G1A), fill); key.alloc(R.sz(JV_SZ_WK_SK), fill); keyb.alloc(4 * R.sz(JV_SZ_WK_FREESLOT), fill);
             ct.alloc(R.sz(JV_SZ_WK_CT), fill); sig.alloc(R.sz(JV_SZ_WK_SIG), fill); params.alloc(R.sz(JV_SZ_WK_PARAMS), fill); paramsh.alloc(3 * R.sz(JV_SZ_G1), fill);
             ap.alloc(2 * std::max(R.jv_pair_size(0, 0), R.jv_pair_size(1, 0))); pp.alloc(std::max(R.jv_pair_size(0, 1), R.jv_pair_size(1, 1))); memset(ap.p, 0xEE, ap.n); memset(pp.p, 0xEE, pp.n); lqct.alloc(R.sz(JV_SZ_LQ_CT)); lqsk.alloc(R.sz(JV_SZ_LQ_SK)); lqparams2.alloc(R.sz(JV_SZ_LQ_PARAMS)); lqid2.alloc(R.sz(JV_SZ_LQ_ID)); lqmsk2.alloc(R.sz(JV_SZ_LQ_MSK));
-            g2a.alloc(R.sz(JV_SZ_G2A)); key2.alloc(R.sz(JV_SZ_WK_SK)); keyb2.alloc(4 * R.sz(JV_SZ_WK_FREESLOT)); pre.alloc(R.sz(JV_SZ_WK_PRE)); bytes.alloc(4096);
+            g2a.alloc(R.sz(JV_SZ_G2A)); key2.alloc(R.sz(JV_SZ_WK_SK)); keyb2.alloc(4 * R.sz(JV_SZ_WK_FREESLOT)); pre.alloc(R.sz(JV_SZ_WK_PRE)); bytes.alloc(8192);
             stream.reqs.reserve(4096);
         }
     };
@@ -196,7 +200,7 @@ struct ConcRun {
         case 35: { int grp = (int) (a & 1), w = (int) ((a >> 1) & 1); { InLib g; r.jv_wnaf_table_mul(grp + 1, 4 + w, grp ? s.g2.p : s.g1.p, wtab[grp][w], sc, (int) (b & 1)); } uint8_t c[193]; if (grp) { r.jv_g2_canon(c, s.g2); d = sha_hex(c, 193, 12); } else { r.jv_g1_canon(c, s.g1); d = sha_hex(c, 97, 12); } break; }
         case 36: { // serialising SHARED objects (several threads publish the same parameters / key / ciphertext): marshal is a read of its object - and of what the object points at
             bool comp = (a & 1) != 0; size_t n1, n2, n3; { InLib g; n1 = r.jv_wk_get_marshalled_length(view, JV_OK_WK_PARAMS, wparams, comp); n2 = r.jv_wk_get_marshalled_length(view, JV_OK_WK_SK, wkey, comp); n3 = r.jv_wk_get_marshalled_length(view, JV_OK_WK_CT, wct, comp);
-              if (n1 + n2 + n3 + 1024 <= s.bytes.n) { r.jv_wk_marshal(view, JV_OK_WK_PARAMS, s.bytes.p, wparams, comp); r.jv_wk_marshal(view, JV_OK_WK_SK, s.bytes.p + n1, wkey, comp); r.jv_wk_marshal(view, JV_OK_WK_CT, s.bytes.p + n1 + n2, wct, comp); r.jv_lq_marshal(view, JV_OK_LQ_PARAMS, s.bytes.p + n1 + n2 + n3, lqparams, comp); } }
+              if (n1 + n2 + n3 + 512 <= s.bytes.n) { r.jv_wk_marshal(view, JV_OK_WK_PARAMS, s.bytes.p, wparams, comp); r.jv_wk_marshal(view, JV_OK_WK_SK, s.bytes.p + n1, wkey, comp); r.jv_wk_marshal(view, JV_OK_WK_CT, s.bytes.p + n1 + n2, wct, comp); r.jv_lq_marshal(view, JV_OK_LQ_PARAMS, s.bytes.p + n1 + n2 + n3, lqparams, comp); } }
             d = sha_hex(s.bytes.p, s.bytes.n, 12); break; }
         case 29: { { InLib g; r.jv_g2_random(view, s.g2, jv_rand_cb); } uint8_t c[193]; r.jv_g2_canon(c, s.g2); d = sha_hex(c, 193, 12); break; }
         }
